@@ -27,6 +27,12 @@ HARNESS = os.path.dirname(os.path.abspath(__file__))
 VERIF = os.path.dirname(HARNESS)
 REPO = os.environ.get('VERIF_REPO', '/repo')
 LEAN = os.path.join(VERIF, 'lean')
+if os.path.realpath(REPO) != '/repo' and not os.environ.get('VERIF_SHARED_LEAN'):
+    # checks run against a scratch copy of the repository (mutation testing) get their own copy of the
+    # Lake project, so regenerated Gen/*.lean files never disturb runs against /repo itself.
+    LEAN = '/tmp/verif_lean_' + hashlib.sha1(os.path.realpath(REPO).encode()).hexdigest()[:10]
+    os.makedirs(LEAN, exist_ok=True)
+    subprocess.run(['rsync', '-a', '--delete', '--exclude', '.lake/verif.lock', os.path.join(VERIF, 'lean') + '/', LEAN + '/'], check=True)
 GEN = os.path.join(LEAN, 'VtlModel', 'Gen')
 PROPS = os.path.join(LEAN, 'VtlModel', 'Props')
 ALLOWED_AXIOMS = {'propext', 'Classical.choice', 'Quot.sound'}
@@ -65,6 +71,14 @@ def sh(cmd, cwd=None, timeout=3600, env=None, input=None):
     return p.returncode, p.stdout
 
 
+class DriverError(RuntimeError):
+    pass
+
+
+class ShapeError(RuntimeError):
+    """A translator found source it does not know how to transcribe (-> obligation broken -> search)."""
+
+
 class LakeLock:
     def __enter__(self):
         os.makedirs(os.path.join(LEAN, '.lake'), exist_ok=True)
@@ -84,9 +98,16 @@ def lean_list(xs, f=str) -> str:
 
 
 def load_known():
+    """known_findings.json (committed, never written at run time) + known_findings.d/*.json (same format,
+    one file per property while the framework is being built)."""
+    out = []
     p = os.path.join(VERIF, 'known_findings.json')
-    if not os.path.exists(p): return []
-    return json.load(open(p))
+    if os.path.exists(p): out += json.load(open(p))
+    d = os.path.join(VERIF, 'known_findings.d')
+    if os.path.isdir(d):
+        for f in sorted(os.listdir(d)):
+            if f.endswith('.json'): out += json.load(open(os.path.join(d, f)))
+    return out
 
 
 class Check:
@@ -216,17 +237,21 @@ class Check:
         return {'ok': ok and not forb and not bad_ax, 'build_ok': ok, 'failed': failed, 'log': log, 'axioms': axioms,
                 'forbidden': forb, 'bad_axioms': bad_ax, 'theorems': [t[2] for t in thms]}
 
-    def driver(self, lines, timeout=3000):
-        """Run the Lean model's line protocol (lean/Driver.lean) on `lines`; returns list of answers."""
-        ok, log = self.lake_build('VtlModel.Core')
-        if not ok:
-            raise RuntimeError('Lean core does not build:\n' + log[-2000:])
+    def driver(self, name, lines, timeout=3000):
+        """Run the Lean model's line protocol lean/Drivers/<name>.lean on `lines` (one request per line,
+        one answer per line); returns the list of answers.  Builds the modules the driver imports first."""
+        dpath = os.path.join(LEAN, 'Drivers', name + '.lean')
+        mods = re.findall(r'^import\s+(VtlModel\.\S+)', open(dpath).read(), re.M)
+        for m in mods:
+            ok, log = self.lake_build(m)
+            if not ok:
+                raise DriverError('Lean model %s does not build:\n%s' % (m, log[-2000:]))
         inp = '\n'.join(lines) + '\n'
-        rc, out = sh(['lake', 'env', 'lean', '--run', 'Driver.lean'], cwd=LEAN, timeout=timeout, input=inp)
+        rc, out = sh(['lake', 'env', 'lean', '--run', os.path.join('Drivers', name + '.lean')], cwd=LEAN, timeout=timeout, input=inp)
         res = out.split('\n')
         if res and res[-1] == '': res.pop()
         if rc != 0 or len(res) != len(lines):
-            raise RuntimeError('driver failed rc=%s, %d answers for %d requests: %s' % (rc, len(res), len(lines), out[-1500:]))
+            raise DriverError('driver failed rc=%s, %d answers for %d requests: %s' % (rc, len(res), len(lines), out[-1500:]))
         return res
 
     # ---------------------------------------------------------------- verdicts
